@@ -6,6 +6,7 @@
 # based on multiprocessing/process.py  (17/02/2017)
 #
 import sys
+from multiprocessing import util
 from multiprocessing.context import assert_spawning
 from multiprocessing.process import BaseProcess
 
@@ -43,6 +44,14 @@ class LokyProcess(BaseProcess):
         else:
             from .popen_loky_posix import Popen
         return Popen(process_obj)
+
+    @staticmethod
+    def _after_fork():
+        # A loky child is a fresh interpreter, never a fork: the finalizers
+        # registered so far belong to this very process (e.g. the ones of the
+        # synchronization primitives created while importing the main module
+        # with the loky_init_main start method) and must not be dropped.
+        util._run_after_forkers()
 
 
 class LokyInitMainProcess(LokyProcess):
